@@ -1,6 +1,5 @@
 # Claims table, exec'd by gen_manifest.py.
 PENDING.update({
- "C02": "check not built yet in this round (planned: builder over a fault-injecting sink, DESIGN section 4)",
  "C10": "check not built yet in this round (planned: xfr simulation, DESIGN section 4)",
  "C14": "check not built yet in this round (planned: validator simulation, DESIGN section 4)",
 })
@@ -39,3 +38,9 @@ claim("C11", "exploration",
       "Trusted: ring::hmac as a primitive, the independent wire scanner / digest model / signer in /verif/sim. Clock skew is injected through the `now` parameter of the core API. Stale TSIG octets left behind the restored message are reported as KNOWN-FINDING.",
       "deterministic simulation with fault injection (tampering channel, clock skew/jumps) against an independent executable RFC 8945 reference model",
       "DESIGN.md section 4, C11")
+
+claim("C02", "fault_enumeration",
+      "Narrow claim: the failure half of C02. Seeded builder operation sequences (push question/record with compressible names, section changes, rewinds, push limits, OPT) are executed over a fault-injecting target buffer; for each sampled sequence EVERY space-exhaustion point (sink capacity at each octet offset; sparser beyond 600/1500 offsets and for messages > 8 KiB, but always every offset around the 0x3FFF pointer limit and the message end) and a push limit at every third such position is enumerated, for one of none/static/tree/hash compressor x plain/stream target. After every operation: a failed push leaves octets and counts unchanged, the stream length prefix equals the message length, and the message parses back to exactly the accepted items with the pushed names. The input half (all names, record types, targets) is only sampled.",
+      "Trusted: the list model and parser-based read-back in /verif/sim (the read-back uses the library's own Message parser, whose totality is C01 and not claimed). FaultySink honours octseq's 'error leaves the builder alone' contract (no torn appends).",
+      "fault injection on the target-buffer seam with exhaustive enumeration of the fault point per sampled operation sequence; list reference model",
+      "DESIGN.md section 4, C02")
